@@ -230,6 +230,16 @@ class Builder:
         for extra in self.auto_extra.get(rel, []):
             if (rel, extra) in self._auto_done:
                 continue
+            if extra.startswith("const:"):
+                # a new module-level constant of the same file used by extracted code: copied as it is
+                cfound = [f for kw_ in ("const ", "static ") for f in rs.find_items(src, m, (0, len(src)), kw_ + extra[6:])
+                          if not self._in_cfg_test(src, m, f)]
+                if len(cfound) == 1:
+                    self._auto_done.add((rel, extra))
+                    self.report.setdefault("auto_extracted_callees", []).append("%s::%s (new constant, copied)" % (rel, extra[6:]))
+                    self.emit_plain_item(rel, src, m, cfound[0])
+                    self.emit("\n", "unit")
+                continue
             found = [f for f in rs.find_items(src, m, (0, len(src)), "fn " + extra) if not self._in_cfg_test(src, m, f)]
             if len(found) == 1:
                 self._auto_done.add((rel, extra))
@@ -841,6 +851,18 @@ class Builder:
                         continue
                     edits.append(Edit(a + mm.start() + len(mm.group(1)), a + mm.end(), [Seg(".to_string()", "repo", fn=qual)]))
                     self.count("R16")
+            if rule[0] == "R19":
+                # E.iter().find(CL) / E.into_iter().find(CL) -> ({ let vx_r = E; let vx_f = CL; vx_r.vx_[into_]iter_find(vx_f) })
+                # (same evaluation order; the closure is bound by a `let` because Verus relates an argument closure's
+                #  ensures to the callee's quantified postcondition only when it is a named value)
+                for mm in re.finditer(r"\.\s*(iter|into_iter)\s*\(\s*\)\s*\.\s*find\s*\(", m[a:b]):
+                    op = a + mm.end() - 1
+                    cp = rs.match_close(m, op)
+                    k = chain_start(m, a, a + mm.start())
+                    edits.append(Edit(k, k, [Seg("({ let vx_r = ", "repo", fn=qual)]))
+                    edits.append(Edit(a + mm.start(), a + mm.end(), [Seg("; let vx_f = ", "repo", fn=qual)]))
+                    edits.append(Edit(cp, cp + 1, [Seg("; vx_r.vx_%s_find(vx_f) })" % mm.group(1), "repo", fn=qual)], order=5))
+                    self.count("R19")
             if rule[0] == "R18":
                 # `E.then(|| BODY)` -> `(if E { Some(BODY) } else { None })`  (the definition of bool::then)
                 for mm in re.finditer(r"\.\s*then\s*\(\s*\|\s*\|", m[a:b]):
@@ -849,7 +871,7 @@ class Builder:
                     k = chain_start(m, a, a + mm.start())
                     edits.append(Edit(k, k, [Seg("(if ", "repo", fn=qual)]))
                     edits.append(Edit(a + mm.start(), a + mm.end(), [Seg(" { Some(", "repo", fn=qual)]))
-                    edits.append(Edit(cp, cp + 1, [Seg(") } else { None })", "repo", fn=qual)]))
+                    edits.append(Edit(cp, cp + 1, [Seg(") } else { None })", "repo", fn=qual)], order=5))
                     self.count("R18")
             if rule[0] == "R14":
                 # `let P = E?;` where E ends in a call of a listed method: desugar `?` (Rust reference desugaring)
